@@ -198,6 +198,8 @@ def is_product_of_calls(e, suffixes):
     left = list(suffixes)
     for x in fs:
         hit = [s for s in left if x[0] == 'call' and x[1].endswith(s)]
+        if not hit and 'DenseMatrix::columns' in left and x[0] == 'kc' and str(x[1]).endswith('Unsigned::USIZE'):
+            hit = ['DenseMatrix::columns']       # columns() is canonically spelled as the type-level constant it returns
         if not hit:
             return False
         left.remove(hit[0])
@@ -434,3 +436,34 @@ def is_tail_range(rng, start_pred, coll=None):
     if nm == 'Range' and len(rng[2]) == 2 and start_pred(rng[2][0]):
         return is_len_of(rng[2][1], coll) if coll is not None else is_len_of(rng[2][1])
     return False
+
+
+def forwards(db, ctx, rid, f, callee_suffixes, expect, what):
+    """Thin wrapper rule: f makes exactly one call to a callee ending with one of `callee_suffixes`, its arguments are the expected
+    expressions (in f's own parameters, after normalisation: refs, `as_ref`, `as_bytes` dropped), the call dominates every exit and its result is
+    what f returns.  `expect`: {callee argument index: expression}."""
+    from lm.match import norm as _norm
+    R = X.Rec(f)
+    calls = [(bi, t) for bi, t in f.calls() if (f.callee_short(t) or '').endswith(tuple(callee_suffixes))]
+    if len(calls) != 1:
+        ctx.fail(rid, f, what, f'reason=unrecognised-shape: {len(calls)} calls to {callee_suffixes}')
+        return False
+    bi, t = calls[0]
+    probs = []
+
+    def strip(e):
+        e = _norm(e)
+        while e[0] == 'call' and len(e[2]) == 1 and e[1].rsplit('::', 1)[-1] in ('as_ref', 'as_bytes', 'as_slice', 'borrow', 'deref', 'as_str'):
+            e = _norm(e[2][0])
+        return e
+    for ai, want in expect.items():
+        got = strip(R.at(bi).operand(t['args'][ai]))
+        if got != want:
+            probs.append(f'argument {ai} of {(f.callee_short(t) or "").rsplit("::", 1)[-1]} is {X.show(got, 80)}, expected {X.show(want, 40)} (the wrapper must forward it unchanged)')
+    if not all(f.dominates(bi, x_) for x_ in f.exits()):
+        probs.append('the forwarding call is not made on every path')
+    if probs:
+        ctx.fail(rid, f, what, '; '.join(probs), span=t['span'])
+        return False
+    ctx.ok(rid, f, what, ['single forwarding call', 'arguments unchanged'])
+    return True
